@@ -876,7 +876,12 @@ func markLocationCreated(ctx *Context, loc *Location) error {
 }
 
 func legalFact(ctx *Context, fact string) error {
-	return legalFactWithout(ctx, fact, createdMarker)
+	if err := legalFactWithout(ctx, fact, createdMarker); err != nil {
+		return err
+	}
+	// The marker is a property (see markLocationCreated), so the fact
+	// that would replace it has the key with the "!".
+	return legalFactWithout(ctx, fact, "!"+createdMarker)
 }
 
 // legalFact will return an error if the fact includes the given
